@@ -356,8 +356,118 @@ def _video_extensions(ctx, hfn):
     return ok, '' if ok else 'video extensions are %s, the format says %s' % (sorted(got), sorted(exp)), None
 
 
-for _v in ('Background', 'Sprite', 'Video'):
-    row('C11', EVENTS, 'background-precedence:' + _v, _bg_precedence(_v))
+def _bg_table(variant):
+    """which event lines set the background file, as a table over (event kind, a background is already set, the name has
+    three bytes, those are a video extension) -- symbolic evaluation of the parser with its helpers inlined:
+      Background -> always;  Sprite -> only while none is set;  Video -> only with a 3-byte non-video extension;
+      every other kind -> never"""
+    def chk(ctx, hfn):
+        import symeval as SE
+        import itertools
+        EV = 'section::events::EventType::'
+        KINDS_ = ('Background', 'Video', 'Break', 'Color', 'Sprite', 'Sample', 'Animation')
+        last_why = ''
+        for dpt in (0, 1, 2):
+            vh = hfn if dpt == 0 else H.inlined_fn(ctx.facts, hfn, depth=dpt, keep=('clean_filename', 'parse', 'trim_comment'))
+            c2 = Ctx(ctx.facts, H.binding_inits(vh), vh)
+
+            def query(st, env, ev):
+                if isinstance(st, dict) and st.get('k') == 'assign':
+                    fc = H.field_chain(st['l'])
+                    if fc and fc[1] and fc[1][-1] == 'background_file':
+                        return ('v', {'k': 'bg-set', 'e': ev.subst(st['r'], env)})
+                return None
+            ev = SE.SymEval(query, budget=20000)
+            body = vh['body']
+            try:
+                tree = ev.seq(list(body.get('stmts', [])), body.get('expr'), {}, lambda env, tail: ('v', {'k': 'end'}),
+                              kret=lambda vt, env=None: ('v', {'k': 'returned'}))
+            except SE.Stop:
+                last_why = 'parser too large to evaluate'
+                continue
+
+            def classify(c):
+                if c[0] == 'pat':
+                    pat = c[1]
+                    names = set()
+
+                    def pv(x):
+                        if isinstance(x, dict):
+                            if x.get('k') == 'path' and x.get('def', '').startswith(EV):
+                                names.add(x['def'][len(EV):])
+                            for v_ in x.values():
+                                pv(v_)
+                        elif isinstance(x, list):
+                            for y in x:
+                                pv(y)
+                    pv(pat)
+                    if names:
+                        return ('kind', frozenset(names), True)
+                    p0 = pat
+                    while isinstance(p0, dict) and p0.get('k') == 'pref':
+                        p0 = p0['p']
+                    if p0.get('k') == 'pslice' and p0.get('rest') and len(p0.get('before', [])) + len(p0.get('after', [])) == 3:
+                        return ('len3', None, True)
+                    # `Some(start) = bytes.len().checked_sub(3)` / `name.len().checked_sub(3)`
+                    if p0.get('k') == 'ptstruct' and p0['path'].get('name') == 'Some' and \
+                            CONTAINS(M('checked_sub', M('len', ANY()), K(3))).m(c2, c[2]):
+                        return ('len3', None, True)
+                    return None
+                e = strip(c[1])
+                pol = True
+                while isinstance(e, dict) and e.get('k') == 'unary' and e.get('op') == 'Not':
+                    e = strip(e['e'])
+                    pol = not pol
+                if isinstance(e, dict) and e.get('k') == 'mcall' and e.get('name') == 'is_empty':
+                    fc = H.field_chain(strip(e['recv']))
+                    if fc and fc[1] and fc[1][-1] == 'background_file':
+                        return ('empty', None, pol)
+                if isinstance(e, dict) and e.get('k') == 'mcall' and e.get('name') in ('contains', 'any') and \
+                        CONTAINS(P('VIDEO_EXTENSIONS')).m(c2, e['recv']):
+                    return ('isvideo', None, pol)
+                if isinstance(e, dict) and e.get('k') == 'binary' and e.get('op') in ('Ge', 'Gt', 'Lt', 'Le'):
+                    a_, b_ = strip(e['a']), strip(e['b'])
+                    if M('len', ANY()).m(c2, a_) and c2.const_value(b_) is not None:
+                        n_ = c2.const_value(b_)
+                        if (e['op'], n_) in (('Ge', 3), ('Gt', 2)):
+                            return ('len3', None, pol)
+                        if (e['op'], n_) in (('Lt', 3), ('Le', 2)):
+                            return ('len3', None, not pol)
+                return None
+
+            def outcomes(t, val):
+                if t[0] == 'v':
+                    return {t[1].get('k') if isinstance(t[1], dict) else '?'}
+                _, c, th, el = t
+                cl = classify(c)
+                if cl is None:
+                    return outcomes(th, val) | outcomes(el, val)
+                what, arg, pol = cl
+                if what == 'kind':
+                    truth = (val['kind'] in arg)
+                else:
+                    truth = val[what]
+                return outcomes(th if truth == pol else el, val)
+            bad = None
+            for kind, empty, len3, isvideo in itertools.product(KINDS_, (True, False), (True, False), (True, False)):
+                if kind != variant and not (variant == 'other' and kind not in ('Background', 'Sprite', 'Video')):
+                    continue
+                got = outcomes(tree, {'kind': kind, 'empty': empty, 'len3': len3, 'isvideo': isvideo}) - {'returned'}
+                want_set = (kind == 'Background') or (kind == 'Sprite' and empty) or (kind == 'Video' and len3 and not isvideo)
+                exp = {'bg-set'} if want_set else {'end'}
+                if got and got != exp:
+                    bad = ('a %s event %s the background file when (one is already set: %s, 3-byte extension: %s, video '
+                           'extension: %s)' % (kind, 'does not set' if want_set else 'sets', not empty, len3, isvideo))
+                    break
+            if bad is None:
+                return True, '', None
+            last_why = bad
+        return False, last_why, None
+    return chk
+
+
+for _v in ('Background', 'Sprite', 'Video', 'other'):
+    row('C11', EVENTS, 'background-precedence:' + _v, _bg_table(_v))
 _video_extensions.positive = True
 row('C11', EVENTS, 'video-extension-list', _video_extensions)
 EDITOR = '<section::editor::Editor as decode::DecodeBeatmap>::parse_editor'
@@ -593,6 +703,56 @@ row('C05', 'decode::parse_first_section', 'failed-version-line-may-open-a-sectio
               'the failed version line itself is tested as a section header'))
 
 
+def _version_loop_skips_only_blank(ctx, hfn):
+    """parse_version reads another line only after try_version_from_line said "blank, keep looking" (its Continue
+    outcome): a first non-blank line that is not a version line ends the search (the version is then the latest)"""
+    import symeval as SE
+    loops = []
+    H.walk(hfn['body'], lambda n, a: loops.append(n) if n.get('k') == 'loop' else None)
+    if len(loops) != 1:
+        return False, 'expected one line loop in parse_version, found %d' % len(loops), None
+    body = loops[0]['body']
+    ev = SE.SymEval(None, budget=6000)
+    try:
+        tree = ev.seq(list(body.get('stmts', [])), body.get('expr'), {}, lambda env, tail: ('v', {'k': 'again'})
+                      if tail is None else ev.stmt(tail, env, lambda e2: ('v', {'k': 'again'}), lambda vt, e2=None: ('v', {'k': 'returned'})),
+                      kret=lambda vt, env=None: ('v', {'k': 'returned'}))
+    except SE.Stop:
+        return False, 'loop too large to evaluate', None
+    n_again = 0
+    for path, leaf in SE.leaves(tree):
+        kind = leaf.get('k') if isinstance(leaf, dict) else None
+        if kind not in ('again', 'continue'):
+            continue
+        n_again += 1
+        ok = False
+        for c, pol in path:
+            if c[0] == 'pat' and pol and 'try_version_from_line' in repr(c[2])[:3000]:
+                nm = set()
+
+                def pv(x):
+                    if isinstance(x, dict):
+                        if x.get('k') == 'path' and x.get('name'):
+                            nm.add(x['name'])
+                        for v_ in x.values():
+                            pv(v_)
+                    elif isinstance(x, list):
+                        for y in x:
+                            pv(y)
+                pv(c[1])
+                if 'Continue' in nm and 'Break' not in nm:
+                    ok = True
+        if not ok:
+            return False, ('another line is read although the previous one was not blank (the loop goes on outside the '
+                           '"keep looking" outcome of try_version_from_line): a junk first line no longer ends the version search'), None
+    if n_again == 0:
+        return False, 'blank lines before the version line are not skipped', None
+    return True, '', None
+
+
+row('C05', 'decode::parse_version', 'version-search-stops-at-first-non-blank-line', _version_loop_skips_only_blank)
+
+
 def _version_table(ctx, hfn):
     """what parse_version yields per outcome of try_version_from_line: (version, use-current-line)"""
     got = {}
@@ -751,12 +911,17 @@ def _sound_type_samples(aspect):
                 ifs.append(n)
             if n.get('k') == 'tup' and len(n.get('es', [])) == 2:
                 tuples.append(n)
+            if n.get('k') == 'mcall' and n.get('name') == 'filter' and n['args']:
+                cl = strip(n['args'][0])
+                if isinstance(cl, dict) and cl.get('k') == 'closure':
+                    filters.append(strip(cl['body']))
+        filters = []
         H.walk(hfn['body'], visit)
         # a flag -> name table kept in a (nested) const: its tuples count where the const is used
 
         def visit_c(n, anc):
             if n.get('k') == 'path' and n.get('dk', '').startswith(('Const', 'AssocConst')) and \
-                    dict.__contains__(ctx.facts.hir, n.get('def')):
+                    dict.__contains__(ctx.facts.hir, n.get('def')) and not n.get('name', '').startswith('HIT_'):
                 base = order.get(id(n), 0)
                 sub = []
                 H.walk(ctx.facts.hir[n['def']]['body'],
@@ -768,7 +933,18 @@ def _sound_type_samples(aspect):
         ST = L('sound_type')
         fld = lambda nm: OR(F(ANY(), nm), L(nm))
         is_file = lambda e: C('HitSampleInfoName::File', ANY()).m(ctx, e)
-        is_name = lambda e, nm: P('HitSampleInfo::' + nm).m(ctx, e)
+
+        def name_is(e, nm):
+            """the expression denotes the default sample name nm (HIT_FINISH const or the variant it wraps)"""
+            hit = []
+
+            def v(n, anc):
+                if n.get('k') == 'path' and (n.get('name') == nm or
+                                             ('HitSampleDefaultName::' in n.get('def', '') and 'HIT_' + n.get('name', '').upper() == nm)):
+                    hit.append(n)
+            H.walk(e if isinstance(e, dict) else {}, v)
+            return bool(hit)
+        is_name = name_is
         files = [c for c in ctors if is_file(c[0]['args'][0])]
         normals = [c for c in ctors if is_name(c[0]['args'][0], 'HIT_NORMAL')]
         others = [c for c in ctors if c not in files and c not in normals]
@@ -815,17 +991,17 @@ def _sound_type_samples(aspect):
                     return False, 'an addition sample is not built with (addition bank, custom index, volume)', c.get('ln')
             pos = {}
             for X in ('FINISH', 'WHISTLE', 'CLAP'):
-                flagp, namep = P('HitSoundType::' + X), P('HitSampleInfo::HIT_' + X)
+                flagp = P('HitSoundType::' + X)
                 hit = None
                 for i in ifs:
                     c = strip(i['c'])
-                    if (M('has_flag', ST, flagp).m(ctx, c) or C('has_flag', ST, flagp).m(ctx, c)) and CONTAINS(namep).m(ctx, i['t']):
+                    if (M('has_flag', ST, flagp).m(ctx, c) or C('has_flag', ST, flagp).m(ctx, c)) and name_is(i['t'], 'HIT_' + X):
                         hit = i
                 for t in tuples:
-                    if flagp.m(ctx, t['es'][0]) and namep.m(ctx, t['es'][1]):
-                        # table form: the table must be what a `has_flag` test iterates over
-                        if any((M('has_flag', ST, ANY()).m(ctx, strip(i['c'])) or C('has_flag', ST, ANY()).m(ctx, strip(i['c'])))
-                               for i in ifs):
+                    if flagp.m(ctx, t['es'][0]) and name_is(t['es'][1], 'HIT_' + X):
+                        # table form: the table must be what a `has_flag` test (an `if` or a `filter`) runs over
+                        tests = [strip(i['c']) for i in ifs] + filters
+                        if any((M('has_flag', ST, ANY()).m(ctx, c_) or C('has_flag', ST, ANY()).m(ctx, c_)) for c_ in tests):
                             hit = t
                 if hit is None:
                     return False, 'bit %s does not add the `hit%s` sample' % (X, X.lower()), None
@@ -1301,13 +1477,131 @@ row('C19', CURVE + 'position_at', 'raw-progress-only-clamped',
 row('C19', CURVE + 'progress_to_dist', 'raw-progress-only-clamped',
     _raw_param_only_through(1, [lambda p: CLAMP(p, K(0.0), K(1.0))], 'clamp(0, 1)'))
 IV = CURVE + 'interpolate_vertices'
-row('C19', IV, 'zero-length-segment-guard',
-    _contains(IF(OR(BIN('Le', M('abs', BIN('Sub', L('d0'), L('d1'), commutative=True)), ANY()),
-                    BIN('Lt', M('abs', BIN('Sub', L('d0'), L('d1'), commutative=True)), ANY())),
-                 CONTAINS(RET(L('p0')))),
-              'a (near) zero-length segment returns its first vertex instead of dividing'))
-row('C19', IV, 'weight', _let('w', BIN('Div', BIN('Sub', L('d'), L('d0')), BIN('Sub', L('d1'), L('d0')))))
-row('C19', IV, 'lerp', _ret(BIN('Add', L('p0'), BIN('Mul', BIN('Sub', L('p1'), L('p0')), CAST(L('w'), 'f32')))))
+def _interp_table(ctx, hfn):
+    """interpolate_vertices(path, lengths, i, d) as a decision table (symbolic evaluation; early returns, an if/else
+    chain or a segment helper give the same tree):
+      empty path -> default;  i == 0 -> path[0];  i beyond the path -> the last vertex;
+      |lengths[i-1] - lengths[i]| <= EPSILON -> path[i-1] (no division);
+      else path[i-1] + (path[i] - path[i-1]) * ((d - lengths[i-1]) / (lengths[i] - lengths[i-1])) as f32"""
+    import symeval as SE
+    import itertools
+    ps = [H.pat_bindings(p_)[0] for p_ in hfn.get('params', []) if H.pat_bindings(p_)]
+    if len(ps) != 4:
+        return False, 'unexpected signature of the interpolation function', None
+    PATH, LENS, I, D = (L(x) for x in ps)
+    ev = SE.SymEval(None, budget=8000)
+    body = hfn['body']
+    try:
+        tree = ev.seq(list(body.get('stmts', [])), body.get('expr'), {},
+                      lambda env, tail: ev.value(tail, env) if tail is not None else ('v', {'k': 'unit'}),
+                      kret=lambda vt, env=None: vt)
+    except SE.Stop:
+        return False, 'function too large to evaluate symbolically', None
+    P0 = INDEX(PATH, BIN('Sub', I, K(1)))
+    D0 = INDEX(LENS, BIN('Sub', I, K(1)))
+    D1 = INDEX(LENS, I)
+    P1 = OR(INDEX(PATH, I), UN('Deref', ANY()), ANY())         # the vertex `path.get(i)` yielded (pattern-bound)
+    zero = OR(BIN('Le', M('abs', BIN('Sub', D0, D1, commutative=True)), K(2.220446049250313e-16)),
+              BIN('Lt', M('abs', BIN('Sub', D0, D1, commutative=True)), K(2.220446049250313e-16)))
+    lerp = BIN('Add', P0, BIN('Mul', BIN('Sub', P1, P0), CAST(BIN('Div', BIN('Sub', D, D0), BIN('Sub', D1, D0)), 'f32')))
+
+    def classify(c):
+        if c[0] == 'pat':
+            pat = c[1]
+            if 'Some' in repr(pat) and M('get', PATH, I).m(ctx, c[2]):
+                return ('some', True)
+            return None
+        e = strip(c[1])
+        pol = True
+        while isinstance(e, dict) and e.get('k') == 'unary' and e.get('op') == 'Not':
+            e = strip(e['e'])
+            pol = not pol
+        if M('is_empty', PATH).m(ctx, e):
+            return ('empty', pol)
+        if BIN('Eq', I, K(0), commutative=True).m(ctx, e):
+            return ('i0', pol)
+        if BIN('Ne', I, K(0), commutative=True).m(ctx, e):
+            return ('i0', not pol)
+        if zero.m(ctx, e):
+            return ('zero', pol)
+        return None
+
+    def run(t, val):
+        while t[0] == 'ite':
+            cl = classify(t[1])
+            if cl is None:
+                return None
+            t = t[2] if val[cl[0]] == cl[1] else t[3]
+        return t[1]
+    want = [
+        ({'empty': True}, C('default'), 'an empty path gives the default position'),
+        ({'empty': False, 'i0': True}, INDEX(PATH, K(0)), 'index 0 gives the first vertex'),
+        ({'empty': False, 'i0': False, 'some': False}, INDEX(PATH, BIN('Sub', M('len', PATH), K(1))), 'an index beyond the path gives the last vertex'),
+        ({'empty': False, 'i0': False, 'some': True, 'zero': True}, P0, 'a (near) zero-length segment gives its first vertex instead of dividing'),
+        ({'empty': False, 'i0': False, 'some': True, 'zero': False}, lerp,
+         'otherwise the position is p0 + (p1 - p0) * ((d - d0) / (d1 - d0))'),
+    ]
+    for fixed, pat, what in want:
+        free = [k_ for k_ in ('empty', 'i0', 'some', 'zero') if k_ not in fixed]
+        for bits in itertools.product((True, False), repeat=len(free)):
+            val = dict(fixed)
+            val.update(zip(free, bits))
+            leaf = run(tree, val)
+            if leaf is None:
+                return False, 'cannot tell: the interpolation tests something other than (empty?, i == 0?, vertex i exists?, zero-length segment?)', None
+            if not pat.m(ctx, leaf):
+                unresolved = []
+                H.walk(leaf if isinstance(leaf, dict) else {}, lambda n, a: unresolved.append(n) if n.get('k') == 'local' and n.get('name') not in ps else None)
+                return False, ('cannot tell: ' if unresolved else '') + '%s; the function yields something else there' % what, None
+    return True, '', None
+
+
+_IV_SHAPE_ROWS = {
+    # the earlier, spelling-bound form of the same facts: used only where the table cannot tell (slice patterns binding
+    # the first / last vertex, pattern-bound indices)
+    'zero-length-segment-guard':
+        _contains(IF(OR(BIN('Le', M('abs', BIN('Sub', L('d0'), L('d1'), commutative=True)), ANY()),
+                        BIN('Lt', M('abs', BIN('Sub', L('d0'), L('d1'), commutative=True)), ANY())),
+                     CONTAINS(RET(L('p0')))),
+                  'a (near) zero-length segment returns its first vertex instead of dividing'),
+    'weight': _let('w', BIN('Div', BIN('Sub', L('d'), L('d0')), BIN('Sub', L('d1'), L('d0')))),
+    'lerp': _ret(BIN('Add', L('p0'), BIN('Mul', BIN('Sub', L('p1'), L('p0')), CAST(L('w'), 'f32')))),
+    'segment': _let('p0', INDEX(L('path'), BIN('Sub', L('i'), K(1)))),
+    'segment-lengths:d0': _let('d0', INDEX(L('lengths'), BIN('Sub', L('i'), K(1)))),
+    'segment-lengths:d1': _let('d1', INDEX(L('lengths'), L('i'))),
+}
+
+
+def _interp_row(label):
+    def chk(ctx, hfn):
+        res = (False, '', None)
+        definite = False
+        for dpt in (0, 1, 2):
+            vh = hfn if dpt == 0 else H.inlined_fn(ctx.facts, hfn, depth=dpt)
+            c2 = Ctx(ctx.facts, H.binding_inits(vh), vh) if dpt else ctx
+            r = _interp_table(c2, vh)
+            if r[0]:
+                return r
+            if not r[1].startswith('cannot tell'):
+                definite = True
+            if dpt == 0:
+                res = r
+        if definite:
+            return res
+        r2 = _IV_SHAPE_ROWS[label](ctx, hfn)
+        if r2[0]:
+            return True, '', None
+        for dpt in (1, 2):
+            vh = H.inlined_fn(ctx.facts, hfn, depth=dpt)
+            c2 = Ctx(ctx.facts, H.binding_inits(vh), vh)
+            if _IV_SHAPE_ROWS[label](c2, vh)[0]:
+                return True, '', None
+        return r2
+    return chk
+
+
+for _lbl in ('zero-length-segment-guard', 'weight', 'lerp', 'segment', 'segment-lengths:d0', 'segment-lengths:d1'):
+    row('C19', IV, _lbl, _interp_row(_lbl))
 CLEN = CURVE + 'calculate_length'
 
 
@@ -1368,9 +1662,6 @@ row('C19', CLEN, 'fit:expected-length-recorded',
     _contains(M('push', L('cumulative_len'), L('expected_len')), 'the expected length becomes the last cumulative length'))
 row('C19', CLEN, 'fit:last-valid',
     _let('last_valid', M('map_or', M('position', M('rev', M('iter', L('cumulative_len'))), ANY()), K(0), ANY())))
-row('C19', IV, 'segment', _let('p0', INDEX(L('path'), BIN('Sub', L('i'), K(1)))))
-row('C19', IV, 'segment-lengths:d0', _let('d0', INDEX(L('lengths'), BIN('Sub', L('i'), K(1)))))
-row('C19', IV, 'segment-lengths:d1', _let('d1', INDEX(L('lengths'), L('i'))))
 
 # ------------------------------------------------------------------------------ C20
 row('C20', None, 'const:MAX_LEN', _const(EVENT + "SliderEventsIter::<'ticks_buf>::MAX_LEN", 100000.0))
